@@ -29,6 +29,13 @@ type FileFlags struct {
 	Truncate bool
 }
 
+// readSeekNopCloser hands the write buffer to an `update` operation without letting the operation close it
+type readSeekNopCloser struct {
+	io.ReadSeeker
+}
+
+func (readSeekNopCloser) Close() error { return nil }
+
 type File struct {
 	afero.File
 
@@ -171,7 +178,8 @@ func (f *File) syncWithoutLocking() error {
 							return nil, err
 						}
 
-						return f.writeBuf, nil
+						// The write buffer stays open until the file is closed
+						return readSeekNopCloser{f.writeBuf}, nil
 					},
 					Info: hdr.FileInfo(),
 					Path: f.path,
@@ -207,8 +215,11 @@ func (f *File) closeWithoutLocking() error {
 	}
 
 	if f.writeBuf != nil {
-		// No need to close write buffer, the `update` operation closes it itself
 		if err := f.syncWithoutLocking(); err != nil {
+			return err
+		}
+
+		if err := f.writeBuf.Close(); err != nil {
 			return err
 		}
 
